@@ -396,7 +396,7 @@ class Engine:
     """Symbolic context + DFS explorer.  One per job."""
     mode = 'sym'
 
-    def __init__(self, logic=None, solver_timeout_ms=1500, watchdog_s=60.0):
+    def __init__(self, logic=None, solver_timeout_ms=1500, watchdog_s=20.0):
         if logic:
             self.solver = z3.SolverFor(logic)
         else:
@@ -778,7 +778,7 @@ def _alarm(signum, frame):
 
 
 def explore(harness, cfg, max_paths=200000, max_seconds=600.0, witness_every=50,
-            witness_cap=20, logic=None, watchdog_s=60.0, profile=None, seeds=None,
+            witness_cap=20, logic=None, watchdog_s=20.0, profile=None, seeds=None,
             slice_seconds=None):
     """Enumerate every feasible path of harness(cfg).  Returns a result dict."""
     eng = Engine(logic=logic, watchdog_s=watchdog_s)
